@@ -602,36 +602,26 @@ impl Parse for Module {
 const MAX_BRACKET_NESTING: usize = 256;
 
 pub fn parse_str(input: &str) -> Result<Module> {
-    let mut depth = 0usize;
-    for (line, text) in input.lines().enumerate() {
-        for (column, c) in text.chars().enumerate() {
-            match c {
-                '(' | '[' | '{' => {
-                    depth += 1;
-                    if depth > MAX_BRACKET_NESTING {
-                        return Err(syn::Error::new(
-                            span_at(line + 1, column),
-                            format!(
-                                "brackets are nested more than {MAX_BRACKET_NESTING} levels deep"
-                            ),
-                        ));
-                    }
+    // (Tokenising does not recurse, and neither does this walk over the groups.)
+    let tokens: proc_macro2::TokenStream = input.parse()?;
+    let mut open = vec![tokens.clone().into_iter()];
+    while let Some(group) = open.last_mut() {
+        match group.next() {
+            Some(proc_macro2::TokenTree::Group(inner)) => {
+                if open.len() > MAX_BRACKET_NESTING {
+                    return Err(syn::Error::new(
+                        inner.span_open(),
+                        format!("brackets are nested more than {MAX_BRACKET_NESTING} levels deep"),
+                    ));
                 }
-                ')' | ']' | '}' => depth = depth.saturating_sub(1),
-                _ => {}
+                open.push(inner.stream().into_iter());
+            }
+            Some(_) => {}
+            None => {
+                open.pop();
             }
         }
     }
-    syn::parse_str(input)
+    syn::parse2(tokens)
 }
 
-/// A span that starts at the given line (from 1) and column (from 0). Spans only come
-/// from tokens, so this makes one at that position.
-fn span_at(line: usize, column: usize) -> proc_macro2::Span {
-    let text = format!("{}{}x", "\n".repeat(line - 1), " ".repeat(column));
-    text.parse::<proc_macro2::TokenStream>()
-        .ok()
-        .and_then(|tokens| tokens.into_iter().next())
-        .map(|token| token.span())
-        .unwrap_or_else(proc_macro2::Span::call_site)
-}
